@@ -152,7 +152,8 @@ def run_interleave(c):
         else:
             r = guarded(lambda: (lambda v: [[float(x) for x in v[0]], [float(x) for x in v[1]]])(NPC.westfall_young(e, tests, in_place=op["in_place"], reps=op["reps"])))
         return [list(r)[:2], [int(v) for v in e.group]]
-    shared = np.array(c["g1"]) if (c["share_labels"] and c["g1"] == c["g2"]) else None
+    # (an object-dtype label array, as read from a mixed table, or a plain integer one)
+    shared = np.array(c["g1"], dtype=(object if c["a1"] % 2 else None)) if (c["share_labels"] and c["g1"] == c["g2"]) else None
     ea, eb = build(1, shared), build(2, shared)
     inter = [apply(ea if op["on"] == 1 else eb, op) for op in c["ops"]]
     alone = {}
